@@ -456,7 +456,12 @@ def _build_block_stacks(
         if next_template:
             base = next_template
 
-    assert base
+    if not base:
+        # An `extends` tag rendered from somewhere other than its own template,
+        # like a macro called from the template that included its definition.
+        raise TemplateInheritanceError(
+            f"unexpected '{tag}'", token=None, template_name=template.name
+        )
     return base
 
 
@@ -509,7 +514,12 @@ async def _build_block_stacks_async(
         if next_template:
             base = next_template
 
-    assert base
+    if not base:
+        # An `extends` tag rendered from somewhere other than its own template,
+        # like a macro called from the template that included its definition.
+        raise TemplateInheritanceError(
+            f"unexpected '{tag}'", token=None, template_name=template.name
+        )
     return base
 
 
